@@ -171,7 +171,14 @@ func (s *socket) onOpen() {
 		s.schedulePing()
 	}
 
-	s.SetReadyState("open")
+	// only a session that is still being opened becomes open: its transport may
+	// have failed already (its reader runs since setTransport), and closed is final
+	if !s.readyState.CompareAndSwap("opening", "open") {
+		utils.ClearTimeout(s.pingIntervalTimer.Load())
+		utils.ClearTimeout(s.pingTimeoutTimer.Load())
+		return
+	}
+	socket_log.Debug("readyState updated from %s to %s", "opening", "open")
 
 	// sends an `open` packet
 	s.Transport().SetSid(s.id)
